@@ -64,6 +64,7 @@ type Resp struct {
 	Code       int    `json:"code,omitempty"`        // gRPC
 	HasInfo    bool   `json:"has_info,omitempty"`    // gRPC: RetryInfo attached
 	InfoNs     int64  `json:"info_ns,omitempty"`     // gRPC: RetryInfo.retry_delay
+	DelayMs    int    `json:"delay_ms,omitempty"`    // the collector takes this long before it answers
 	Partial    bool   `json:"partial,omitempty"`     // success carrying a partial-success message
 	PS         *PSpec `json:"ps,omitempty"`          // success with exactly this partial_success (overrides Partial)
 }
@@ -198,6 +199,9 @@ func (c *collector) ServeHTTP(w http.ResponseWriter, r *http.Request) {
 		return
 	}
 	rs := c.resp(idx)
+	if rs.DelayMs > 0 {
+		time.Sleep(time.Duration(rs.DelayMs) * time.Millisecond)
+	}
 	if c.sc.HookBefore && c.after != nil {
 		c.after(idx)
 	}
@@ -239,6 +243,9 @@ func (c *collector) grpcAnswer(ctx context.Context, req proto.Message) (*PSpec, 
 		return nil, status.Error(codes.Unavailable, "hung")
 	}
 	rs := c.resp(idx)
+	if rs.DelayMs > 0 {
+		time.Sleep(time.Duration(rs.DelayMs) * time.Millisecond)
+	}
 	if c.after != nil {
 		defer c.after(idx)
 	}
@@ -908,6 +915,7 @@ type TimeoutCase struct {
 	Exporter int           `json:"exporter"`
 	Headers  int           `json:"headers"` // 0 none, 1 option, 2 environment
 	Hang     bool          `json:"hang"`
+	CallerDeadlineLater bool `json:"caller_deadline_later"` // the caller's context has a deadline 30 s after the configured timeout (as a periodic reader passes)
 	Timeout  time.Duration `json:"timeout"`
 	Bound    time.Duration `json:"bound"`
 	sc       *Scenario
@@ -970,6 +978,11 @@ func (tc *TimeoutCase) run() (ob TimeoutObs, failure string, inconclusive string
 	defer close(tc.col.release)
 	ctx, cancel := context.WithCancel(context.Background()) // no deadline of its own
 	defer cancel()
+	if tc.CallerDeadlineLater {
+		var c2 context.CancelFunc
+		ctx, c2 = context.WithTimeout(ctx, tc.Timeout+30*time.Second)
+		defer c2()
+	}
 	done := make(chan error, 1)
 	t0 := time.Now()
 	go func() { done <- tc.x.export(ctx) }()
@@ -1026,6 +1039,9 @@ func buildTimeoutCases(r *vgen.Rand) []*TimeoutCase {
 			for _, hang := range []bool{true, false} {
 				out = append(out, &TimeoutCase{Exporter: e, Headers: h, Hang: hang, Timeout: time.Duration(300+r.Intn(201)) * time.Millisecond})
 			}
+		}
+		for _, hang := range []bool{true, false} { // caller deadline later than the exporter's timeout: the timeout still bounds the export
+			out = append(out, &TimeoutCase{Exporter: e, Headers: r.Intn(2), Hang: hang, CallerDeadlineLater: true, Timeout: time.Duration(300+r.Intn(201)) * time.Millisecond})
 		}
 	}
 	// exporters read OTEL_EXPORTER_OTLP_HEADERS when they are constructed: build the environment ones in a phase of their own,
@@ -1501,6 +1517,25 @@ func accumulatedThrottle(r *vgen.Rand) []Scenario {
 	return out
 }
 
+// slowAttempts: every reply is retry-able, takes 300 ms to come and asks for 300 ms more (RetryInfo; Retry-After in the unit the
+// client reads); MaxElapsedTime is 500 ms.  The failed attempt's own duration counts: 300 + 300 > 500, so the export must give
+// up after its FIRST attempt.  The collector sleeps at least the delay, so a slow machine only makes the attempt longer.
+func slowAttempts() []Scenario {
+	var out []Scenario
+	for e := 0; e < 6; e++ {
+		for rep := 0; rep < 2; rep++ {
+			sc := Scenario{Exporter: e, Enabled: true, Initial: time.Millisecond, MaxElapsed: 500 * time.Millisecond, CancelAt: -1, ShutdownAt: -1, Timed: true, Kind: "slow-attempt"}
+			if isHTTP(e) {
+				sc.Script = []Resp{{Status: 503, RetryAfter: "300000000", DelayMs: 300}}
+			} else {
+				sc.Script = []Resp{{Code: 14, HasInfo: true, InfoNs: 300e6, DelayMs: 300}}
+			}
+			out = append(out, sc)
+		}
+	}
+	return out
+}
+
 func classificationSweep(tier string) []Scenario {
 	var out []Scenario
 	for e := 0; e < 6; e++ {
@@ -1576,6 +1611,7 @@ func main() {
 	var scs []Scenario
 	scs = append(scs, fixedCorpus()...)
 	scs = append(scs, accumulatedThrottle(r.Fork())...)
+	scs = append(scs, slowAttempts()...)
 	scs = append(scs, classificationSweep(o.Tier)...)
 	n := o.Count(900, 12000)
 	for i := 0; i < n; i++ {
@@ -1714,6 +1750,12 @@ func main() {
 			w.Tally("inconclusive:" + sc.Kind)
 			continue
 		}
+		if sc.Kind == "slow-attempt" {
+			term := vgen.App("CSlow", vgen.N(uint64(sc.Exporter)), vgen.Z(300e6), vgen.Z(int64(sc.MaxElapsed)), vgen.Nat(ob.Attempts), vgen.N(uint64(ob.ErrClass)), vgen.Z(ob.Elapsed))
+			w.Tally(fmt.Sprintf("slow-attempt:attempts=%d", ob.Attempts))
+			w.Add(term, desc, sc.Kind+"-"+exporterNames[sc.Exporter], true)
+			continue
+		}
 		http := isHTTP(sc.Exporter)
 		if len(sc.Throttled) > 0 {
 			var ds, hs, gs []string
@@ -1770,7 +1812,7 @@ func main() {
 	for i, tc := range tcs {
 		if tfail[i] != "" || tincon[i] != "" {
 			w.Tally("rerun-sequentially")
-			n := &TimeoutCase{Exporter: tc.Exporter, Headers: tc.Headers, Hang: tc.Hang, Timeout: tc.Timeout}
+			n := &TimeoutCase{Exporter: tc.Exporter, Headers: tc.Headers, Hang: tc.Hang, Timeout: tc.Timeout, CallerDeadlineLater: tc.CallerDeadlineLater}
 			if n.Headers == 2 {
 				os.Setenv("OTEL_EXPORTER_OTLP_HEADERS", "x-verif-hdr=v")
 			}
@@ -1798,9 +1840,9 @@ func main() {
 			continue
 		}
 		ob := tobs[i]
-		term := vgen.App("CTimeout", vgen.N(uint64(tc.Exporter)), vgen.N(uint64(tc.Headers)), vgen.Bool(tc.Hang), vgen.Z(int64(tc.Timeout)), vgen.Z(int64(tc.Bound)),
+		term := vgen.App("CTimeout", vgen.N(uint64(tc.Exporter)), vgen.N(uint64(tc.Headers)), vgen.Bool(tc.CallerDeadlineLater), vgen.Bool(tc.Hang), vgen.Z(int64(tc.Timeout)), vgen.Z(int64(tc.Bound)),
 			vgen.Bool(ob.Returned), vgen.N(uint64(ob.ErrClass)), vgen.Z(ob.Elapsed), vgen.Nat(ob.Late), vgen.Nat(ob.Attempts), vgen.Bool(ob.HeadersOK))
-		w.Tally(fmt.Sprintf("timeout:headers=%d,hang=%v", tc.Headers, tc.Hang))
+		w.Tally(fmt.Sprintf("timeout:headers=%d,hang=%v,caller-deadline-later=%v", tc.Headers, tc.Hang, tc.CallerDeadlineLater))
 		w.Add(term, desc, "timeout-"+exporterNames[tc.Exporter], true)
 	}
 	for i, sc := range shutCases {
